@@ -409,6 +409,15 @@ type MethodHandler[V any] interface {
 	GetMethod(value V, methodName string) (Function[V], error)
 }
 
+// MethodPurity can be implemented by a MethodHandler to tell if a method is
+// pure without knowing the value the method is called on. This value is not
+// known when the code is generated.
+type MethodPurity interface {
+	// IsMethodPure returns true if every method with the given name is pure,
+	// on whatever type it is defined.
+	IsMethodPure(methodName string) bool
+}
+
 type MethodHandlerFunc[V any] func(value V, methodName string) (Function[V], error)
 
 func (mh MethodHandlerFunc[V]) GetMethod(value V, methodName string) (Function[V], error) {
@@ -1205,6 +1214,12 @@ func (g *FunctionGenerator[V]) GenerateFunc(ast parser2.AST, gc GeneratorContext
 		if err != nil {
 			return nil, false, err
 		}
+		// The method is looked up when the call is evaluated. The call is pure
+		// only if the method handler knows that the method is pure on every type.
+		mPure := false
+		if mp, ok := g.methodHandler.(MethodPurity); ok {
+			mPure = mp.IsMethodPure(name)
+		}
 		return func(st Stack[V], cs []V) (V, error) {
 			value, err := valFunc(st, cs)
 			if err != nil {
@@ -1264,7 +1279,7 @@ func (g *FunctionGenerator[V]) GenerateFunc(ast parser2.AST, gc GeneratorContext
 				return v, err
 			}
 			return zero, parser2.NewNotFoundError(name, a.Errorf("method %s not found", name))
-		}, fPure && aPure, nil
+		}, fPure && aPure && mPure, nil
 	}
 	return nil, false, ast.GetLine().Errorf("not supported: %v", ast)
 }
